@@ -29,8 +29,8 @@ Modelled Python builtins (the trusted part, see TRUSTED in harness/props/c17.py)
     sort for fewer than 64 items) with `x < y  :=  cmp(x, y) < 0`; a comparison that
     does not return an int makes the statement stuck
   * `heappush` / `heappop`        = insertion into / head of a list kept sorted by the
-    `<` of the first tuple component (a triple of ints); equal triples never occur
-    (the counter is unique) and compare as "not less"
+    `<` of the first tuple component (a triple of ints); a comparison of two entries
+    with equal triples is stuck (proved never to happen: the counter is unique)
 Local variables live in numbered slots; reading an unassigned slot is `stuck`.
 Lists have value semantics: the translator checks that a list that is mutated
 (`append`, `sort`, `heappush`, `heappop`) is never aliased.
@@ -58,6 +58,7 @@ inductive Expr where
   | index (e : Expr) (n : Nat)            -- `e[n]`
   | call (fn : String) (args : Expr)      -- builtin or translated function; `args` a tuple display
   | offersItems                           -- `self._adaptation_offers.items()`
+  | glob (name : String)                  -- a module-level singleton (`AdaptationError`, `_MISSING`)
   deriving Repr, DecidableEq
 
 inductive Stmt where
@@ -78,6 +79,9 @@ inductive Stmt where
   | newCounter (i : Nat)                                  -- `x = itertools.count()`
   | next (dst src : Nat)                                  -- `dst = next(x)`
   | callFactory (dst : Nat) (offer arg : Expr)            -- `dst = offer.factory(arg)`
+  | callEff (dst : Nat) (fn : String) (args : Expr)       -- `dst = self.fn(args)` for a translated method that may call factories
+  | raiseExc (e : Exc)                                    -- `raise E(message)` (the message is not observed)
+  | setdefaultBucket (dst : Nat) (key dflt : Expr)        -- `dst = self._adaptation_offers.setdefault(key, [])`
   deriving Repr, DecidableEq
 
 structure Func where
@@ -102,6 +106,9 @@ inductive Val (α : Type) where
   | obj (a : α)                           -- the adaptee or an adapter
   | counterRef                            -- the `itertools.count` object
   | opaque                                -- a value nothing is known about (any use is stuck)
+  | glob (name : String)                  -- a module-level singleton object, or (`"$default"`) the caller's default
+  | key (k : Nat)                         -- a `from_protocol_name` string
+  | bucket (k : Nat)                      -- the list stored under key `k` in `self._adaptation_offers` (an alias of it)
   | tuple (vs : List (Val α))
   | list (vs : List (Val α))
 
@@ -121,6 +128,13 @@ def getVar (vars : Frame α) (i : Nat) : Except Exc (Val α) :=
 
 def setVar (vars : Frame α) (i : Nat) (v : Val α) : Frame α := fun j => if j = i then some v else vars j
 
+inductive Flow (α : Type) where
+  | next
+  | brk
+  | returned (v : Val α)
+  | raised (e : Exc)
+  | outOfFuel
+
 /-- What the interpreter is run with. -/
 structure Ctx (α : Type) where
   cfg : Cfg
@@ -128,6 +142,9 @@ structure Ctx (α : Type) where
   srcType : Nat
   /-- a call of a translated function (one level down) -/
   call : String → List (Val α) → Except Exc (Val α)
+  /-- a call of a translated method that may call factories: the trace so far ↦ the trace
+  after, and how the call ended (`returned` / `next` / `raised` / `outOfFuel`) -/
+  callEff : String → List (Val α) → List CallRec → List CallRec × Flow α := fun _ _ tr => (tr, .raised .other)
 
 /-- `a is b` on the values that occur. -/
 def isSame : Val α → Val α → Option Bool
@@ -136,6 +153,9 @@ def isSame : Val α → Val α → Option Bool
   | _, .none => some false
   | .ty a, .ty b => some (a == b)
   | .offer a, .offer b => some (a.id == b.id)
+  | .glob a, .glob b => some (a == b)
+  | .obj _, .glob _ => some false
+  | .glob _, .obj _ => some false
   | _, _ => Option.none
 
 /-- `offer in items` (`==` of an `AdaptationOffer` is identity). -/
@@ -235,6 +255,7 @@ def eval (C : Ctx α) (vars : Frame α) : Expr → Except Exc (Val α)
     | .ok (.offer o) =>
       if n = "from_protocol" then .ok (.ty o.frm)
       else if n = "to_protocol" then .ok (.ty o.to)
+      else if n = "from_protocol_name" then .ok (.key o.key)
       else stuck
     | .ok _ => stuck
     | .error e => .error e
@@ -251,18 +272,13 @@ def eval (C : Ctx α) (vars : Frame α) : Expr → Except Exc (Val α)
     | .error e => .error e
   | .offersItems =>
     .ok (.list (C.cfg.groups.map (fun g => .tuple [.opaque, .list (g.map .offer)])))
+  | .glob n => .ok (.glob n)
 
 structure St (α : Type) where
   vars : Frame α
   counter : Nat := 0                      -- state of the `itertools.count` object
   trace : List CallRec := []              -- factory calls made so far
-
-inductive Flow (α : Type) where
-  | next
-  | brk
-  | returned (v : Val α)
-  | raised (e : Exc)
-  | outOfFuel
+  reg : List (Nat × List Offer) := []     -- `self._adaptation_offers` while it is being built (`register_offer`)
 
 /-- Bind the loop / assignment targets: one name takes the value, several names
 unpack a tuple or list of exactly that length. -/
@@ -322,10 +338,16 @@ def cmpOk (C : Ctx α) (cmp : String) (a b : Val α) : Bool :=
   | .ok (.int _) => true
   | _ => false
 
-/-- Python `<` of two heap entries, decided by their first components (triples of ints). -/
+/-- Python `<` of two heap entries, decided by their first components (triples of ints).
+Equal triples are **stuck**: Python's tuple comparison would go on to compare the paths
+(lists of offers: a prefix is smaller, otherwise `TypeError` from `offer < offer`) and
+then the protocols (`TypeError`); the interpreter refuses instead of guessing.  That the
+search never gets there (the counter component is unique in the queue) is proved, not
+assumed: `Lemmas/AdaptSource2.lean` carries the invariant through the `while` loop. -/
 def weightLt : Val α → Val α → Option Bool
   | .tuple (.tuple [.int a1, .int b1, .int c1] :: _), .tuple (.tuple [.int a2, .int b2, .int c2] :: _) =>
-    some (decide (a1 < a2) || (a1 == a2 && (decide (b1 < b2) || (b1 == b2 && decide (c1 < c2)))))
+    if a1 = a2 ∧ b1 = b2 ∧ c1 = c2 then Option.none
+    else some (decide (a1 < a2) || (a1 == a2 && (decide (b1 < b2) || (b1 == b2 && decide (c1 < c2)))))
   | _, _ => Option.none
 
 /-- `heappush` on the sorted-list representation of the heap. -/
@@ -388,6 +410,8 @@ def exec (C : Ctx α) (fuel : Nat) : Stmt → St α → St α × Flow α
   | .append i e, st =>
     match getVar st.vars i, eval C st.vars e with
     | .ok (.list vs), .ok v => ({ st with vars := setVar st.vars i (.list (vs ++ [v])) }, .next)
+    | .ok (.bucket k), .ok (.offer o) =>
+      ({ st with reg := st.reg.map (fun kv => if kv.1 == k then (kv.1, kv.2 ++ [o]) else kv) }, .next)
     | .error x, _ => (st, .raised x)
     | _, .error x => (st, .raised x)
     | _, _ => (st, .raised .other)
@@ -432,12 +456,39 @@ def exec (C : Ctx α) (fuel : Nat) : Stmt → St α → St α × Flow α
     | _, .error x => (st, .raised x)
     | _, _ => (st, .raised .other)
 
+  | .callEff dst fn args, st =>
+    match eval C st.vars args with
+    | .ok (.tuple vs) =>
+      (match C.callEff fn vs st.trace with
+       | (tr, .returned v) => ({ st with vars := setVar st.vars dst v, trace := tr }, .next)
+       | (tr, .next) => ({ st with vars := setVar st.vars dst .none, trace := tr }, .next)
+       | (tr, .raised x) => ({ st with trace := tr }, .raised x)
+       | (tr, .outOfFuel) => ({ st with trace := tr }, .outOfFuel)
+       | (tr, .brk) => ({ st with trace := tr }, .raised .other))
+    | .ok _ => (st, .raised .other)
+    | .error x => (st, .raised x)
+  | .raiseExc e, st => (st, .raised e)
+  | .setdefaultBucket dst k d, st =>
+    match eval C st.vars k, eval C st.vars d with
+    | .ok (.key kk), .ok (.list []) =>
+      ({ st with vars := setVar st.vars dst (.bucket kk),
+                 reg := if st.reg.any (fun kv => kv.1 == kk) then st.reg else st.reg ++ [(kk, [])] }, .next)
+    | .error x, _ => (st, .raised x)
+    | _, .error x => (st, .raised x)
+    | _, _ => (st, .raised .other)
+
 /-- The frame of a call: the arguments in the parameter slots. -/
 def initFrame (args : List (Val α)) : Frame α := fun j => args[j]?
 
 def runFn (C : Ctx α) (fuel : Nat) (fn : Func) (args : List (Val α)) : St α × Flow α :=
   if args.length ≠ fn.nparams then ({ vars := initFrame [] }, .raised .typeError)
   else exec C fuel fn.body { vars := initFrame args }
+
+/-- The same with the trace of factory calls and the registry the caller has reached. -/
+def runFnIn (C : Ctx α) (fuel : Nat) (fn : Func) (args : List (Val α)) (tr : List CallRec)
+    (reg : List (Nat × List Offer)) : St α × Flow α :=
+  if args.length ≠ fn.nparams then ({ vars := initFrame [], trace := tr, reg := reg }, .raised .typeError)
+  else exec C fuel fn.body { vars := initFrame args, trace := tr, reg := reg }
 
 /-- A call of the translated function `name` from inside another one, `depth`
 levels of calls still allowed.  The callee must be pure (no factory call, no
@@ -457,6 +508,19 @@ def callAt (P : Prog) (cfg : Cfg) (f : Factory α) (srcType : Nat) :
 
 def ctxAt (P : Prog) (cfg : Cfg) (f : Factory α) (srcType : Nat) (depth : Nat) : Ctx α :=
   { cfg := cfg, f := f, srcType := srcType, call := callAt P cfg f srcType depth }
+
+/-- A call of a translated method that may call factories (`adapt` → `_adapt`), `depth`
+levels of such calls still allowed; pure calls below it go through `callAt`. -/
+def callEffAt (P : Prog) (cfg : Cfg) (f : Factory α) (srcType : Nat) (fuel : Nat) :
+    Nat → String → List (Val α) → List CallRec → List CallRec × Flow α
+  | 0, _, _, tr => (tr, .raised .other)
+  | d + 1, name, args, tr =>
+    match lookupFn name P with
+    | Option.none => (tr, .raised .other)
+    | some fn =>
+      match runFnIn { cfg := cfg, f := f, srcType := srcType, call := callAt P cfg f srcType 3,
+                      callEff := callEffAt P cfg f srcType fuel d } fuel fn args tr [] with
+      | (st, fl) => (st.trace, fl)
 
 /-- What `_adapt` did, as far as the caller can tell. -/
 inductive ResV (α : Type) where
@@ -492,5 +556,58 @@ def viewRes : Res α → ResV α
   | .raised e => .raised e
   | .notFound => .notFound
   | .outOfFuel => .outOfFuel
+
+/-! ## The entry points around `_adapt` -/
+
+/-- What `adapt` did, as far as the caller can tell. -/
+inductive OutV (α : Type) where
+  | ret (a : α)                           -- an object came back (the adaptee itself or an adapter)
+  | dflt                                  -- the caller's `default` came back
+  | error (e : Exc)
+  | stuck
+  deriving DecidableEq, Repr
+
+/-- The name under which the caller's own `default` object goes into the interpreter. -/
+def userDefault : String := "$default"
+
+/-- `self.adapt(adaptee, to_protocol[, default])` interpreted from the translated source;
+`dfltName` is the (translated) default value of the parameter `default`. -/
+def runAdaptCall (P : Prog) (cfg : Cfg) (f : Factory α) (srcType : Nat) (adaptee : α) (target : Nat)
+    (dfltName : String) (hasDefault : Bool) (fuel : Nat) : OutV α × List CallRec :=
+  match callEffAt P cfg f srcType fuel 2 "adapt"
+      [.obj adaptee, .ty target, .glob (if hasDefault then userDefault else dfltName)] [] with
+  | (tr, .returned (.obj a)) => (.ret a, tr)
+  | (tr, .returned (.glob n)) => (if n = userDefault then .dflt else .stuck, tr)
+  | (tr, .raised e) => (.error e, tr)
+  | (tr, _) => (.stuck, tr)
+
+/-- `self.supports_protocol(obj, protocol)` interpreted from the translated source. -/
+def runSupportsCall (P : Prog) (cfg : Cfg) (f : Factory α) (srcType : Nat) (adaptee : α) (target : Nat)
+    (fuel : Nat) : Except Exc Bool × List CallRec :=
+  match callEffAt P cfg f srcType fuel 3 "supports_protocol" [.obj adaptee, .ty target] [] with
+  | (tr, .returned (.bool b)) => (.ok b, tr)
+  | (tr, .raised e) => (.error e, tr)
+  | (tr, _) => (.error .other, tr)
+
+/-- `register_offer` calls nothing: a context without functions. -/
+def emptyCtx : Ctx Unit :=
+  ⟨⟨fun _ _ => false, fun _ => [], []⟩, fun _ _ _ => FOut.none, 0, fun _ _ => stuck, fun _ _ tr => (tr, .raised .other)⟩
+
+/-- `self.register_offer(offer)` on the registry `reg`, interpreted from the translated source. -/
+def runRegisterOffer (P : Prog) (reg : List (Nat × List Offer)) (o : Offer) : Option (List (Nat × List Offer)) :=
+  match lookupFn "register_offer" P with
+  | Option.none => Option.none
+  | some fn =>
+    match runFnIn emptyCtx 0 fn [.offer o] [] reg with
+    | (st, .next) => some st.reg
+    | (st, .returned .none) => some st.reg
+    | _ => Option.none
+
+/-- The model's `adapt` result as the caller sees it. -/
+def viewOut (adaptee : α) : Out α → OutV α
+  | .self => .ret adaptee
+  | .adapted _ a => .ret a
+  | .default => .dflt
+  | .error e => .error e
 
 end TraitsVerif.Model.PyA
